@@ -1,5 +1,16 @@
--- root of the library: models, specs, drivers, theorems
+-- root of the library: everything `./setup.sh` pre-builds (models, oracles, drivers, theorems)
 import PetgraphModel.Common
-import PetgraphModel.Model.UnionFind
+import PetgraphModel.GraphProto
+import PetgraphModel.Spec.Graph
 import PetgraphModel.Spec.Partition
+import PetgraphModel.Oracle.Reach
+import PetgraphModel.Oracle.Dist
+import PetgraphModel.Proofs.Dist
+import PetgraphModel.Model.UnionFind
+import PetgraphModel.Model.Traversal
+import PetgraphModel.Driver.C07
+import PetgraphModel.Driver.C08
 import PetgraphModel.Driver.C19
+import PetgraphModel.Theorems.C07
+import PetgraphModel.Theorems.C08
+import PetgraphModel.Theorems.C19
